@@ -1,5 +1,6 @@
 //! fv — falcon verification driver. `fv <id> <quick|thorough>` orchestrates worker sub-processes
 //! (`--shard i/n`), merges what they observed, writes evidence and prints verdict lines.
+mod archs;
 mod bv;
 mod explore;
 mod gen;
